@@ -2,6 +2,7 @@
 mod ctx;
 mod e1;
 mod e1world;
+mod e2;
 mod iso;
 mod props;
 mod runner;
